@@ -98,13 +98,13 @@ def parsed(text):
     return _parsed[text]
 
 
-def pmap(fn, items, jobs=None, chunk=64):
+def pmap(fn, items, jobs=None, chunk=64, force=False):
     """order-preserving parallel map over picklable items"""
     import multiprocessing as mp
     import os
     items = list(items)
     jobs = jobs or int(os.environ.get('VERIF_JOBS', '16'))
-    if len(items) < 24 or jobs <= 1:
+    if (len(items) < 24 and not force) or jobs <= 1:
         return [fn(x) for x in items]
     with mp.get_context('fork').Pool(jobs) as pool:
         return pool.map(fn, items, chunksize=max(1, min(chunk, len(items) // (jobs * 4) or 1)))
